@@ -104,12 +104,13 @@ type monitor struct {
 
 // Run is the C08 monitor.
 func Run(r *ev.Run) {
-	r.Rule = "cases = for each keystore format (v1 over filesystem.Storage; v2 over in-memory and directory api.Backend; v1 also on a storage without hard links) × history prefix {empty, one-key, rotated-twice, other-clients} × write operation {generate/rotate of the 6 key kinds, destroy current, destroy rotated, save key pair (acra-rotate's call), import of bundles / key rings}: record the fault-free trace c1..cN of storage calls, then for EVERY k and every mode {error-before, error-after, crash-before, crash-after; torn at 0/1/half/len-1/seeded offset for WriteFile/Copy/Put} run the operation with that single fault and probe the post-fault storage (crash: snapshot taken at the crash instant) through fresh handles, and the same handle for error returns; then retry. A case is non-trivial when the planned fault actually fired at the recorded call; distinct = (format, operation, call class, mode) tuples that fired"
+	r.Rule = "cases = for each keystore format (v1 over filesystem.Storage; v2 over in-memory and directory api.Backend; v1 also on a storage without hard links) × history prefix {empty, one-key, rotated-twice, other-clients} × write operation {generate/rotate of the 6 key kinds, destroy current, destroy rotated, save key pair (acra-rotate's call), import of bundles / key rings}: record the fault-free trace c1..cN of storage calls, then for EVERY k and every mode {error-before, error-after, crash-before, crash-after; torn at 0/1/half/len-1/seeded offset for WriteFile/Copy/Put} run the operation with that single fault and probe the post-fault storage (crash: snapshot taken at the crash instant) through fresh handles, and the same handle for error returns; then retry. A case is non-trivial when the planned fault actually fired at the recorded call; distinct = (format, operation, call class, mode) tuples that fired. RING-LEVEL LAYER (v2, both back ends): for each history of api.MutableKeyRing writes {mixed key states, fresh pre-active keys, empty ring} × faulted operation {AddKey sym/pair, SetCurrent, SetState (3 legal transitions), DestroyKey of a pre-active/deactivated/compromised/current key} on ONE kept-open ring handle × every back-end call of it × every mode × follow-up kind {retry, add, add+set-current, set-current, set-state, destroy; thorough: two-operation mixes and a write to another ring} × handle {same ring handle, new ring handle of the same store, second store on the same back end; crash modes: fresh store on the snapshot}: run the operation with the fault, check the storage (fresh store) and the same handle's view, perform the follow-up writes, close everything, reopen and compare every key (state, public/private/symmetric part, current marker) with the API contract applied to the state before; distinct adds (format, history/operation, call class, mode, follow-up kind, handle)"
 	r.Assumptions = []string{
 		"crypto library replaced by the pure-Go gothemis stand-in (Secure Cell Seal / Secure Message / EC key contract)",
 		"process-crash model: bytes handed to the storage before the crash instant survive; no power-loss reordering; single fault per operation (plus the no-hard-link configuration which makes Copy part of the fault-free trace)",
 		"Redis storage/back end not covered; acra-rotate is driven through the keystore call it makes (SaveDataEncryptionKeys), not through its main package",
 		"v1 same-handle probes use an unbounded cache warmed before the operation; fresh-handle probes model the restart",
+		"ring-level layer: expected ring content is the API contract of AddKey/SetCurrent/SetState/DestroyKey applied to the observed state before; it is validated against the real code's fault-free run of the same operation (+ follow-up) and a disagreement is inconclusive, never a violation",
 	}
 	logrus.StandardLogger().ExitFunc = func(code int) { panic(fmt.Sprintf("logrus.Fatal -> os.Exit(%d)", code)) }
 	rng := gen.New(r.Seed, "c08")
@@ -273,6 +274,25 @@ func Run(r *ev.Run) {
 	r.RequireAtLeast("pair_consistency_checked", 100)
 	r.RequireSetAtLeast("operations", 15)
 	r.RequireSetAtLeast("formats", 3)
+	// ring-level layer
+	r.RequireAtLeast("ring_fault_runs_fired", int64(r.Pick(1500, 5000)))
+	r.RequireAtLeast("ring_followups_validated_fault_free", 100)
+	r.RequireAtLeast("ring_followup_writes_succeeded", 1000)
+	r.RequireAtLeast("ring_followup_via:same-handle", 250)
+	r.RequireAtLeast("ring_followup_via:new-ring-handle", 200)
+	r.RequireAtLeast("ring_followup_via:second-store", 400)
+	r.RequireAtLeast("ring_same_handle_views_checked", 800)
+	r.RequireAtLeast("ring_crash_snapshots_probed", 300)
+	r.RequireAtLeast("ring_reopen_views_compared", 1500)
+	r.RequireAtLeast("ring_histories_fully_reflected", 800)
+	r.RequireAtLeast("ring_keys_compared", 15000)
+	r.RequireAtLeast("ring_listings_checked", 2000)
+	r.RequireAtLeast("ring_outcome_final_old", 500)
+	r.RequireAtLeast("ring_outcome_final_new", 300)
+	r.RequireSetAtLeast("ring_operations", 12)
+	r.RequireSetAtLeast("ring_followup_kinds", 6)
+	r.RequireSetAtLeast("ring_followup_handles", 4)
+	r.RequireSetAtLeast("ring_formats", 2)
 }
 
 // ---------------------------------------------------------------------------------------------
